@@ -77,12 +77,10 @@ pub fn run(c: &Case) -> Outcome {
     if nla.final_is_honest {
         out.label("still-honest");
         if honest_kind && std_flags {
-            // the credentials must follow, and unseal
-            match (&run.connect, &nla.credentials) {
-                (_, Some(Ok(_))) => {}
-                (_, other) => {
-                    out.fail("nla:honest-reply-not-followed-by-credentials", format!("after the honest reply: {:?}", other));
-                }
+            // that the credentials follow an honest reply is C03's statement ("connecting succeeds"), not C01's; here it only
+            // guards against a vacuous pass (a client that never releases credentials satisfies C01 trivially)
+            if let (_, Some(Ok(_))) = (&run.connect, &nla.credentials) {
+                out.label("credentials-after-honest-reply");
             }
         } else if let Some(Err(e)) = &nla.credentials {
             if !e.starts_with("no credentials message") {
@@ -263,5 +261,6 @@ pub fn check(rep: &Report) {
     rep.random("replies", rep.tier.n(3_000, 60_000), 200, decode, run);
     rep.require("replies", "must-refuse", 800);
     rep.require("replies", "honest", 50);
+    rep.require("replies", "credentials-after-honest-reply", 30);
     rep.require("replies", "certificate-checked", 100);
 }
